@@ -32,8 +32,8 @@ ASSUMPTIONS = []
 
 def cases(rng, tier):
     out = []
-    for _ in range(2500 if tier == "quick" else 40000):
-        out.append({"prog": proggen.gen_program(rng, rng.randint(1, 10)), "variant": rng.randint(0, 11)})
+    for i in range(2500 if tier == "quick" else 40000):
+        out.append({"prog": proggen.gen_program(rng, rng.randint(1, 10), chain=(i % 4 == 3)), "variant": rng.randint(0, 11)})
     return out
 
 
